@@ -914,6 +914,14 @@ class RecordLayer(object):
 
             try:
                 if isinstance(header, RecordHeader2):
+                    # SSLv2 framing is not valid once an SSLv3 or TLS
+                    # cipher state protects the connection
+                    if self.version not in ((2, 0), (0, 2)) and \
+                            self._readState and \
+                            (self._readState.encContext or
+                             self._readState.macContext):
+                        raise TLSUnexpectedMessage(
+                            "SSLv2 record in SSLv3/TLS protected connection")
                     data = self._decryptSSL2(data, header.padding)
                     if self.handshake_finished:
                         header.type = ContentType.application_data
